@@ -222,6 +222,31 @@ def gillespie_horizon_case(draw):
     return case
 
 
+def prop_alias(case):
+    """Gillespie_Arbitrary is the same simulator under its legacy name: identical output for identical seeds, in both return modes"""
+    import contextlib, io
+    import random as _r
+    import numpy as np
+    import EoN
+    fails = []
+    for full in (False, True):
+        try:
+            f, args, kw = simrun.build(case, full, budget=CallBudget(200000))
+            _r.seed(case['seed']); np.random.seed(case['seed'] % 2 ** 32)
+            a = f(*args, **kw)
+            f, args, kw = simrun.build(case, full, budget=CallBudget(200000))
+            _r.seed(case['seed']); np.random.seed(case['seed'] % 2 ** 32)
+            with contextlib.redirect_stdout(io.StringIO()):
+                b = EoN.Gillespie_Arbitrary(*args, **kw)
+            if simrun.as_series(case, a, full) != simrun.as_series(case, b, full):
+                fails.append(Failure('Gillespie_Arbitrary:differs-from-Gillespie_simple_contagion:%s' % ('full' if full else 'arrays'),
+                                     'same seeds, same arguments: the legacy name returns a different result'))
+        except Exception as e:
+            fails.append(Failure('Gillespie_Arbitrary:exception:%s' % exc_signature(e), 'raised %r' % (e,)))
+            break
+    return Result(fails, nontrivial=True, classes=['legacy-alias'])
+
+
 def prop_gillespie_horizon(case):
     N = simrun.population(case)
     try:
@@ -247,6 +272,8 @@ def prop_gillespie_horizon(case):
 def replay(ctx, sub, case):
     if sub == 'gillespie-horizon':
         return prop_gillespie_horizon(case).failures
+    if sub == 'legacy-alias':
+        return prop_alias(case).failures
     return prop_case(case).failures
 
 
@@ -269,6 +296,8 @@ def run(ctx):
     if not only or 'large' in only:
         for sim in simrun.SIMS:          # 70-150 nodes, hub of degree >= 69, heavy-tailed weights: size / rejection-count thresholds
             run_hypothesis(ctx, 'large', simrun.large_case(sim), prop_case, 20 if quick else 300, rounds=2, case_timeout=300)
+    if not only or 'legacy-alias' in only:
+        run_hypothesis(ctx, 'legacy-alias', simrun.sim_case(sims=['Gillespie_simple_contagion'], nmax=10), prop_alias, 40 if quick else 1000, rounds=2)
     if not only or 'rho' in only:
         run_hypothesis(ctx, 'rho', rho_case(), prop_case, 300 if quick else 10000)
     if not only or 'horizon' in only:
